@@ -23,6 +23,27 @@ pub(super) struct Reader {
 }
 
 impl Reader {
+    /// Take the space a failed batch had reserved out of a block that was sealed while the batch
+    /// was planned: only the first `used` bytes of the block hold entries.
+    pub(super) fn truncate_sealed_block(&self, col: &str, block_id: u64, used: u64) {
+        let info_arc = match self.data.read() {
+            Ok(map) => map.get(col).cloned(),
+            Err(_) => None,
+        };
+        if let Some(info_arc) = info_arc {
+            if let Ok(mut info) = info_arc.write() {
+                if let Some(idx) = info.chain.iter().rposition(|b| b.id == block_id) {
+                    if info.chain[idx].used > used {
+                        info.chain[idx].used = used;
+                    }
+                    if info.cur_block_idx == idx && info.cur_block_offset > used {
+                        info.cur_block_offset = used;
+                    }
+                }
+            }
+        }
+    }
+
     pub(super) fn new() -> Self {
         Self {
             data: RwLock::new(HashMap::new()),
